@@ -124,6 +124,25 @@ class PMFLearner:
         self.n += 1
 
 
+class LowBitsLearner:
+    """Chooses by the low-order digits of the last numeric feature: sensitive to anything that rounds or rewrites the environment's data."""
+
+    def __init__(self, tag="lb"):
+        self.tag = tag
+
+    @property
+    def params(self):
+        return {"family": "LowBits", "tag": self.tag}
+
+    def predict(self, context, actions):
+        x = next((v for v in reversed(list(context) if context is not None and not isinstance(context, (str, int, float)) else [context])
+                  if isinstance(v, float)), 0.0)
+        return actions[int(abs(x) * 1e9) % len(actions)], 1.0
+
+    def learn(self, context, action, reward, probability):
+        pass
+
+
 class KwargsLearner:
     """Returns (action, prob, kwargs) and demands the kwargs back in learn."""
 
@@ -150,10 +169,20 @@ class FaultyLearner:
     asked for params.  The failure is a function of the learner's own local history only, so
     an evaluation alone and the same evaluation inside a larger experiment are comparable."""
 
-    def __init__(self, where, k, env_tag=None, tag="f"):
+    def __init__(self, where, k, env_tag=None, tag="f", same_obj=False):
         self.where, self.k, self.env_tag, self.tag = where, k, env_tag, tag
         self.n_pred = 0
         self.n_learn = 0
+        # same_obj: the learner raises the very same exception object every time it fails (a stored / pre-made error), e.g. for the
+        # batched call and again for the row-by-row fallback of SafeLearner
+        self.same_obj, self._err = same_obj, None
+
+    def _fail(self, what):
+        if not self.same_obj:
+            raise Injected(f"{what}:{self.tag}")
+        if self._err is None:
+            self._err = Injected(f"{what}:{self.tag}")
+        raise self._err
 
     @property
     def params(self):
@@ -185,14 +214,14 @@ class FaultyLearner:
         _yield("lrn.predict")
         if self.where == "predict" and self._hit(context):
             if self.n_pred == self.k:
-                raise Injected(f"predict:{self.tag}")
+                self._fail("predict")
         self.n_pred += 1
         return actions[self.n_pred % len(actions)], 1.0
 
     def learn(self, context, action, reward, probability):
         if self.where == "learn" and self._hit(context):
             if self.n_learn == self.k:
-                raise Injected(f"learn:{self.tag}")
+                self._fail("learn")
         self.n_learn += 1
 
 
@@ -200,9 +229,12 @@ class InfoLearner:
     """Publishes values through CobaContext.learning_info (which evaluators move into the rows);
     optionally fails in learn right after having published in predict."""
 
-    def __init__(self, tag="i", every=1, raise_at=None):
+    def __init__(self, tag="i", every=1, raise_at=None, skip_first=False, transient_raise_at=None):
         self.tag, self.every, self.raise_at = tag, every, raise_at
         self.n = 0
+        # skip_first: nothing is published in the very first round; transient_raise_at: learn fails ONCE per run (whichever copy of this
+        # learner gets there first) right after predict has published - a fault, not a property of the learner
+        self.skip_first, self.transient_raise_at = skip_first, transient_raise_at
 
     @property
     def params(self):
@@ -210,13 +242,16 @@ class InfoLearner:
 
     def predict(self, context, actions):
         from coba.context import CobaContext
-        if self.n % self.every == 0:
+        if self.n % self.every == 0 and not (self.skip_first and self.n == 0):
             CobaContext.learning_info["published"] = f"{self.tag}:{self.n}"
         return actions[self.n % len(actions)], 1.0
 
     def learn(self, context, action, reward, probability):
         if self.raise_at is not None and self.n == self.raise_at:
             raise Injected(f"learn:{self.tag}")
+        if self.transient_raise_at == self.n and INTERRUPTS_ENABLED and ("info", self.tag) not in TRANSIENT_FIRED:
+            TRANSIENT_FIRED.add(("info", self.tag))
+            raise Injected(f"transient:{self.tag}")
         self.n += 1
 
 
@@ -243,11 +278,18 @@ class RecordingLearner:
 
 
 # ----------------------------------------------------------------------------- environments
+TRANSIENT_FIRED = set()         # transient faults that have fired in the current run (cleared by the check at the start of a run)
+INTERRUPTS_ENABLED = True       # (switched off while a check reads its fault-free reference twin)
+
+
 class TaggedEnv:
     """Class based environment; every context carries the env tag (a string feature)."""
 
-    def __init__(self, tag, n, n_actions=3, fail_at=None, extra=False, params_raise=False):
+    def __init__(self, tag, n, n_actions=3, fail_at=None, extra=False, params_raise=False, interrupt_at=None, ctx_list=False):
         self.tag, self.n, self.n_actions, self.fail_at, self.extra, self.params_raise = tag, n, n_actions, fail_at, extra, params_raise
+        # a transient fault: the first read that reaches item `interrupt_at` is hit by a Ctrl-C (KeyboardInterrupt, a BaseException)
+        self.interrupt_at, self.interrupted = interrupt_at, False
+        self.ctx_list = ctx_list       # contexts are (mutable) lists instead of tuples
 
     @property
     def params(self):
@@ -260,7 +302,12 @@ class TaggedEnv:
         for i in range(self.n):
             if self.fail_at is not None and i == self.fail_at:
                 raise Injected(f"read:{self.tag}:{i}")
+            if self.interrupt_at is not None and i == self.interrupt_at and not self.interrupted and INTERRUPTS_ENABLED:
+                self.interrupted = True
+                raise KeyboardInterrupt()
             ctx = (self.tag, i % 5, (i * 7 % 11) / 11)
+            if self.ctx_list:
+                ctx = list(ctx)
             acts = list(range(self.n_actions))
             rwds = [round(((i + a * 3) % 7) / 7, 5) for a in acts]
             if self.extra:
@@ -305,17 +352,26 @@ class CachedEnv:
 class RowsEvaluator:
     """Yields prepared rows (C07) - ignores the learner, reads the environment only to count."""
 
-    def __init__(self, rows_by_env, params=None, tag="rows", fail_after=None):
+    def __init__(self, rows_by_env, params=None, tag="rows", fail_after=None, reuse_list=False):
         self.rows_by_env = rows_by_env      # "env tag/learner tag" -> list of (encoded) rows
         self._params = dec(params or {})
         self.tag = tag
         self.fail_after = fail_after
+        # reuse_list: evaluate() returns a list object that the evaluator keeps, clears and refills on its next call (a result buffer)
+        self.reuse_list, self._buf = reuse_list, []
 
     @property
     def params(self):
         return dict(self._params)
 
     def evaluate(self, environment, learner):
+        if self.reuse_list:
+            self._buf.clear()
+            self._buf.extend(self._rows(environment, learner))
+            return self._buf
+        return self._rows(environment, learner)
+
+    def _rows(self, environment, learner):
         import copy
         tag = environment.params.get("tag")
         lt = getattr(learner, "tag", None)
